@@ -231,6 +231,10 @@ BaseWorkerScenarios ==
     \* S blocked handing over a login: cap selects the login variant (password, key, certificate, padded key)
     \cup {[worker |-> "S", state |-> "sending", cap |-> c] : c \in {0, 1, 2, 3}}
     \cup {[worker |-> "P", state |-> st, cap |-> c] : st \in {"idle", "busy", "loginpending"}, c \in {0, 4}}
+    \* an event still being assembled when the context is cancelled: flushed before Read returns, not after
+    \cup {[worker |-> "P", state |-> "inflight", cap |-> c] : c \in {0, 4}}
+    \* the pipe's path is removed (cap 0) / replaced by a new FIFO (cap 1) while the worker waits for a writer
+    \cup {[worker |-> w, state |-> "openingunlinked", cap |-> c] : w \in {"A", "S"}, c \in {0, 1}}
 
 \* stall: how long the worker has been in the blocking state when its context is cancelled (ms); the long stalls
 \* look at workers that change their way of waiting after a while (a warning timer, a retry, a fallback)
@@ -241,4 +245,6 @@ WorkerScenarios ==
     \* the correlator is merely busy for a long while (nobody cancels) and then receives again: the login blocked in the
     \* hand-off must still arrive (C05); afterwards the worker is cancelled as in the other scenarios
     \cup {[worker |-> "S", state |-> "sendinglate", cap |-> c, stall |-> 6500] : c \in {0, 1, 2, 3}}
+    \* the event of an accepted login cannot be written: the worker ends with that error (no cancellation involved)
+    \cup {[worker |-> "S", state |-> "writefail", cap |-> 0, stall |-> 0]}
 =============================================================================
